@@ -27,6 +27,7 @@ use crate::codec::family::Family;
 use crate::common::NumStdDev;
 use crate::error::Error;
 use crate::hll::estimator::HipEstimator;
+use crate::hll::estimator::check_kxq;
 use crate::hll::get_slot;
 use crate::hll::get_value;
 use crate::hll::serialization::CUR_MODE_HLL;
@@ -295,6 +296,16 @@ impl Array8 {
         cursor
             .read_exact(&mut data)
             .map_err(insufficient_data("data"))?;
+
+        // The cached counters must describe the registers just read.
+        if data.iter().any(|&v| v > 63)
+            || data.iter().filter(|&&v| v == 0).count() as u32 != num_zeros
+        {
+            return Err(Error::deserial(
+                "corrupted: register values or zero count are inconsistent",
+            ));
+        }
+        check_kxq(data.iter().copied(), kxq0, kxq1)?;
 
         // Create estimator and restore state
         let mut estimator = HipEstimator::new(lg_config_k);
